@@ -46,6 +46,13 @@ impl<V> Node<V> {
         let mut max_prefix_item = None;
 
         for i in 0..self.children.len() {
+            // Same regex as this node prefix: it can only go to the child having this exact regex
+            if self.children[i].regex() == regex {
+                max_prefix_item = Some(i);
+
+                break;
+            }
+
             let prefix_size = common_prefix_char_size(regex, self.children[i].regex());
 
             if prefix_size > max_prefix_size {
